@@ -264,7 +264,7 @@ class Interp:
             return isinstance(self.ev(e.args[0]), t)
         if isinstance(f, ast.Name) and f.id in ("len", "set", "abs", "min", "max", "float", "int", "bool", "tuple", "list", "sorted"):
             fn = {"len": len, "set": set, "abs": abs, "min": min, "max": max, "float": float, "int": int, "bool": bool, "tuple": tuple, "list": list, "sorted": sorted}[f.id]
-            return fn(*[self.ev(a) for a in e.args])
+            return fn(*[self.ev(a) for a in e.args], **{k.arg: self.ev(k.value) for k in e.keywords if k.arg})
         if self.call_hook is not None:
             r = self.call_hook(self, e)
             if r is not _MISSING:
@@ -275,13 +275,15 @@ class Interp:
             return _PURE_BUILTINS[f.id](*[self.ev(a) for a in e.args], **{k.arg: self.ev(k.value) for k in e.keywords})
         if isinstance(f, ast.Name) and callable(self.env.get(f.id)):  # a callable handed in by the case (e.g. a default rule)
             return self.env[f.id](*[self.ev(a) for a in e.args], **{k.arg: self.ev(k.value) for k in e.keywords})
-        if isinstance(f, ast.Attribute) and isinstance(f.value, ast.Name) and f.value.id in ("math", "itertools", "functools", "operator") and f.value.id not in self.env:
+        if isinstance(f, ast.Attribute) and isinstance(f.value, ast.Name) and f.value.id in ("math", "itertools", "functools", "operator", "heapq") and f.value.id not in self.env:
             import functools as _ft
             import itertools as _itools
             import math as _math
             import operator as _op
 
-            modv = {"math": _math, "itertools": _itools, "functools": _ft, "operator": _op}[f.value.id]
+            import heapq as _hq
+
+            modv = {"math": _math, "itertools": _itools, "functools": _ft, "operator": _op, "heapq": _hq}[f.value.id]
             fn = _PURE_BUILTINS.get(f.attr) or getattr(modv, f.attr, None)
             if fn is not None:
                 return fn(*[self.ev(a) for a in e.args], **{k.arg: self.ev(k.value) for k in e.keywords})
@@ -333,6 +335,9 @@ class Interp:
                         return
                 if isinstance(v.func, ast.Attribute) and v.func.attr in _PURE_METHODS:
                     self.call(v)  # e.g. `xs.append(y)` on a concrete list of the case
+                    return
+                if isinstance(v.func, ast.Attribute) and isinstance(v.func.value, ast.Name) and v.func.value.id == "heapq" and "heapq" not in self.env:
+                    self.call(v)  # heap operations on a concrete list of the case
                     return
             raise Unsupported(f"expression statement {ast.unparse(st)[:60]}")
         elif isinstance(st, ast.AugAssign):
